@@ -23,8 +23,9 @@ static void build_ops(void)
     for (int i = 0; i < NV; i++) OPS[NOPS++] = (op_t) { 0, i };
     for (int i = 0; i < NPROBE; i++) OPS[NOPS++] = (op_t) { 1, i };
     OPS[NOPS++] = (op_t) { 2, 0 };             /* done(): the vector gives up everything it holds and stays usable */
+    for (int i = 0; i < NV; i++) OPS[NOPS++] = (op_t) { 3, i };        /* remove(find(x)): the stored object itself is the probe */
 }
-static void op_name(int i, char *b, size_t n) { if (OPS[i].k == 2) snprintf(b, n, "done()"); else snprintf(b, n, "%s(%s)", OPS[i].k ? "remove" : "insert", PROBE[OPS[i].x]); }
+static void op_name(int i, char *b, size_t n) { if (OPS[i].k == 2) snprintf(b, n, "done()"); else if (OPS[i].k == 3) snprintf(b, n, "remove(find(%s))", PROBE[OPS[i].x]); else snprintf(b, n, "%s(%s)", OPS[i].k ? "remove" : "insert", PROBE[OPS[i].x]); }
 static spif_vector_t new_vec(void)
 {
     switch (CLS) {
@@ -39,6 +40,7 @@ static int enabled(void *vs, int op)
 {
     st_t *s = vs; op_t *o = &OPS[op];
     if (o->k == 0) return s->n < S && s->cnt[o->x] < MULT;
+    if (o->k == 3) return s->cnt[o->x] > 0;
     return 1;
 }
 static const char *site(const char *m) { static char b[64]; snprintf(b, sizeof b, "%s.%s", CN[CLS], m); return b; }
@@ -93,6 +95,15 @@ static void apply(void *vs, int op)
         m = "done";
         if (!SPIF_VECTOR_DONE(s->v)) FAIL(site(m), "model:return", shape, "done returned FALSE");
         memset(s->cnt, 0, sizeof s->cnt); s->n = 0;
+    } else if (o->k == 3) {
+        spif_obj_t p = S_(PROBE[o->x]); m = "remove";
+        spif_obj_t f = SPIF_VECTOR_FIND(s->v, p); SPIF_OBJ_DEL(p);
+        int slot, v = f ? owner(s, f, &slot) : -1;
+        if (v != o->x) FAIL(site("find"), "model:return", shape, "find did not return a stored object equal to the probe");
+        else { spif_obj_t r = SPIF_VECTOR_REMOVE(s->v, f);
+            int slot2, v2 = r ? owner(s, r, &slot2) : -1;
+            if (v2 != o->x) FAIL(site(m), "model:return", shape, "remove(stored object) did not hand back a stored object equal to it");
+            else { SPIF_OBJ_DEL(r); s->e[v2][slot2] = s->e[v2][--s->cnt[v2]]; s->n--; } }
     } else if (o->k == 0) {
         spif_obj_t x = S_(PROBE[o->x]); m = "insert";
         spif_bool_t r = SPIF_VECTOR_INSERT(s->v, x);
